@@ -70,6 +70,9 @@ inductive Step where
   | writeF (l : Loc) (g : Val → Val)
   /-- `if out < h { mem[l] = h; flag = true }` — the compare-and-write half of `updateAt` -/
   | writeIfLess (l : Loc) (h : Val)
+  /-- plain read-modify-write `mem[l] := g mem[l] out` (`*acc = append(*acc, x…)` with `x` the value
+  last read); recorded as a write access, which conflicts with every other access of `l` -/
+  | rmw (l : Loc) (g : Val → Val → Val)
   /-- buffered channel send of `v` -/
   | send (ch : Nat) (v : Val)
   /-- channel receive into `reg` (blocks while the channel is empty) -/
@@ -155,6 +158,7 @@ def exec (s : Step) (c : Config) (t : Tid) : Config :=
   | .writeIfLess l h =>
       if ts.out < h then advance { access c t l true with mem := upd c.mem l h } t { ts with flag := true }
       else advance c t ts
+  | .rmw l g => advance { access c t l true with mem := upd c.mem l (g (c.mem l) ts.out) } t ts
   | .send ch v =>
       advance { c with chan := upd c.chan ch (c.chan ch ++ [(v, c.next :: ts.seen)]) } t ts
   | .recv ch =>
@@ -324,6 +328,25 @@ signals on a channel; the consumer uses the buffer only after receiving the sign
 def BUF : Loc := 0
 def handoffProg (v : Val) : Program := fun t =>
   if t = 0 then [.write BUF v, .send CH 0] else if t = 1 then [.recv CH, .read BUF] else []
+
+/-- `ReduceConcurrentMap` with a per-goroutine buffer (`DualContouring.populateEdges`: the
+interior points a worker found): the factory binds the worker's buffer (`reg` := identity of its
+backing array; array `r` is the cell `CBUF + r`), the worker stores what it collected in it (`v` =
+the worker's partial list), and the reduce function, which runs under `ReduceConcurrentMap`'s
+mutex, reads the buffer and appends it to the shared result. -/
+def CACC : Loc := 0
+def CBUF : Loc := 1
+def collectThread (merge : Val → Val → Val) (base v : Val) : List Step :=
+  [ .setReg base,       -- 0  localInterior := <the worker's backing array>
+    .writeAt CBUF v,    -- 1  localInterior = append(localInterior, edge.Coord)     (iter)
+    .lock M,            -- 2  reduce runs under the launcher's mutex
+    .readAt CBUF,       -- 3  for _, x := range localInterior
+    .rmw CACC merge,    -- 4      *interior = append(*interior, x)
+    .unlock M ]         -- 5
+
+/-- `N` workers; worker `t` found `v t` and uses the backing array `base t`. -/
+def collectProgN (merge : Val → Val → Val) (base v : Tid → Val) (N : Nat) : Program :=
+  fun t => if t < N then collectThread merge (base t) (v t) else []
 
 /-! ## Facts about the source (filled in by the extractor, `M3d/Gen/ConcFacts.lean`) -/
 
